@@ -1283,7 +1283,7 @@ def item_index_rule(rep, F, FW):
     for c, lits, args in aprs(g):
         if lits and all(s_[:1] in ("k", "K") for s_ in lits) and args:
             n_k += 1
-            t8.check(aff(args[0]) == {"num_vars": 1.0, "num_rand_vars": 1.0, "1": -1.0}, "record|k|count|%d" % n_k, short_loc(c.get("l")),
+            t8.check(xaff(g, args[0]) == {"num_vars": 1.0, "num_rand_vars": 1.0, "1": -1.0}, "record|k|count|%d" % n_k, short_loc(c.get("l")),
                      "the column-size record announces num_vars + num_rand_vars - 1 entries", "it announces `%s`" % render(args[0]))
     if n_k < 2:
         t8.fail("record|k|count", short_loc(g.loc), "column-size headers not found")
